@@ -199,6 +199,7 @@ class Exec:
         self.alias_paths = {}
         self.old_stack = []
         self.root_env = {}
+        self.pending_eager = []
 
     # ------------------------------------------------------------------ basics
     def alloc(self, obj):
@@ -359,10 +360,33 @@ class Exec:
             cf = self.facts.cls(cn) if cn else None
             if cn and cf is None and cn not in ("?",):
                 raise OutsideSubset(f"unknown class {cn}")
-            return self.alloc(HObj(cn, cf, name))
+            ref = self.alloc(HObj(cn, cf, name))
+            self.pending_eager.append(ref)
+            return ref
         if typ.startswith("enum:"):
             raise OutsideSubset("enum typed input")
         raise OutsideSubset(f"unknown type {typ}")
+
+    def force_class_fields(self, depth_limit=4):
+        """create every declared scalar/list field of the objects made so far (so that snapshots and loop-write checks see them)"""
+        while self.pending_eager:
+            ref = self.pending_eager.pop()
+            obj = self.heap[ref.oid]
+            if obj.path.count(".") >= depth_limit:
+                continue
+            names = [c.name for c in obj.cf.mro] if obj.cf is not None else ([obj.clsname] if obj.clsname else [])
+            for nm in names:
+                for attr, t in self.contract.class_fields.get(nm, {}).items():
+                    if attr in obj.fields:
+                        continue
+                    if self.contract.types.get(f"{obj.path}.{attr}") is not None:
+                        continue
+                    if str(t).startswith("obj") or str(t).startswith("objlist") or str(t).startswith("pairlist"):
+                        continue      # object graphs stay lazy (back pointers would never end)
+                    try:
+                        self.get_attr(ref, attr)
+                    except (PyRaise, OutsideSubset):
+                        pass
 
     def declared_type(self, path):
         t = self.contract_for_types().types.get(path)
@@ -392,6 +416,12 @@ class Exec:
                 v = self.mk(typ, path)
                 obj.fields[attr] = v
                 self.register_input(path, typ, v)
+                if self.pending_eager and not self._forcing:
+                    self._forcing = True
+                    try:
+                        self.force_class_fields()
+                    finally:
+                        self._forcing = False
                 return v
             if cf is not None:
                 lk = self.facts.lookup(cf, attr)
@@ -516,6 +546,7 @@ class Exec:
 
     spec_mode_old = False
     effect_mode = False
+    _forcing = False
 
     def _mirror_into_old(self, path, v):
         # a lazily created input has the same initial value in every snapshot taken so far
@@ -1069,6 +1100,8 @@ class Exec:
         raise OutsideSubset(f"subscript of {base}")
 
     def slice(self, base, lo, hi):
+        if isinstance(base, ElemRef) and lo is None and hi is None:
+            return base      # an equal copy of a record keeps its place in the record list (identity is not modelled)
         def bounds(ln):
             l = z3.IntVal(0) if lo is None or (isinstance(lo, SV) and lo.kind == "none") else ops.as_int(lo)
             h = ln if hi is None or (isinstance(hi, SV) and hi.kind == "none") else ops.as_int(hi)
@@ -1114,6 +1147,21 @@ class Exec:
             r = self.spec_call(n)
             if r is not NotImplemented:
                 return r
+        if (isinstance(n.func, ast.Attribute) and isinstance(n.func.value, ast.Call) and isinstance(n.func.value.func, ast.Name)
+                and n.func.value.func.id == "super" and not n.func.value.args):
+            recv = self.locals.get("self")
+            if not isinstance(recv, Ref) or self.cur_cls is None:
+                raise OutsideSubset("super() outside a method")
+            ocf = self.heap[recv.oid].cf
+            mro = ocf.mro if ocf is not None else self.cur_cls.mro
+            names = [c.name for c in mro]
+            start = names.index(self.cur_cls.name) + 1 if self.cur_cls.name in names else 0
+            for c in mro[start:]:
+                if n.func.attr in c.methods:
+                    args = [self.eval(a) for a in n.args]
+                    kw = {k.arg: self.eval(k.value) for k in n.keywords}
+                    return self.call_unit(c.methods[n.func.attr], recv, args, kw)
+            return NONE      # object.__init__ and friends
         f = self.eval(n.func)
         args = [self.eval(a) for a in n.args]
         if any(isinstance(a, ast.Starred) for a in n.args):
@@ -1647,6 +1695,9 @@ class Exec:
             if nm == "is_fresh":
                 v = self.eval(n.args[0])
                 return B(z3.BoolVal(isinstance(v, Ref) and v.oid not in self.old_state["heap"]))
+            if nm == "iota":
+                k = ops.as_int(self.eval(n.args[0]))
+                return self.alloc(HList("int", ops.iota(k)))
             if nm == "prefix_sum":
                 # prefix_sum(objlist, 'field', k) = sum of field over elements [0, k)   (recursive spec function, unfolded by the solver)
                 lref = self.eval(n.args[0])
@@ -1827,6 +1878,11 @@ class Exec:
         raise ReturnSig(self.eval(s.value) if s.value is not None else NONE)
 
     def s_Assign(self, s):
+        if (isinstance(s.value, ast.List) and not s.value.elts and len(s.targets) == 1 and isinstance(s.targets[0], ast.Name)
+                and s.targets[0].id in self.contract.list_literals and not self.frames):
+            m = re.fullmatch(r"list\[(int|str|val)\]", self.contract.list_literals[s.targets[0].id])
+            self.locals[s.targets[0].id] = self.alloc(HList(m.group(1), z3.Empty(ops.seq_sort(m.group(1)))))
+            return
         v = self.eval(s.value)
         for t in s.targets:
             self.assign(t, v)
@@ -2116,6 +2172,62 @@ class Exec:
             return v
         return v
 
+    def heap_fingerprint(self):
+        fp = {}
+
+        def vfp(v):
+            if isinstance(v, SV):
+                return v.term
+            if isinstance(v, Ref):
+                return ("ref", v.oid)
+            if isinstance(v, ElemRef):
+                return ("elem", v.oid, v.idx, v.prefix)
+            return ("py", id(v))
+        for oid, o in self.heap.items():
+            if isinstance(o, HList):
+                fp[("seq", oid)] = o.seq
+            elif isinstance(o, HTuple):
+                for i, it in enumerate(o.items):
+                    fp[("item", oid, i)] = vfp(it)
+                fp[("len", oid)] = len(o.items)
+            elif isinstance(o, HObj):
+                for k, v in o.fields.items():
+                    fp[("field", oid, k)] = vfp(v)
+            elif isinstance(o, HObjList):
+                for k, (t, arr) in o.fields.items():
+                    fp[("arr", oid, k)] = arr
+            elif isinstance(o, HRec):
+                for k, v in o.items.items():
+                    fp[("rec", oid, k)] = vfp(v)
+            elif isinstance(o, HDict):
+                fp[("dict", oid)] = (o.arr, o.dom)
+        return fp
+
+    @staticmethod
+    def _fp_same(a, b):
+        if z3.is_expr(a) and z3.is_expr(b):
+            return a.eq(b)
+        if isinstance(a, tuple) and isinstance(b, tuple) and len(a) == len(b):
+            return all(Exec._fp_same(x, y) for x, y in zip(a, b))
+        if z3.is_expr(a) or z3.is_expr(b):
+            return False
+        return a == b
+
+    def check_loop_writes(self, key, fp_before_havoc, fp_after_havoc):
+        """soundness guard: whatever the loop body changed must have been havocked before the arbitrary iteration"""
+        now = self.heap_fingerprint()
+        for k, v in now.items():
+            if k not in fp_after_havoc:
+                continue      # created inside the body
+            if self._fp_same(v, fp_after_havoc[k]):
+                continue
+            was_havocked = k in fp_before_havoc and not self._fp_same(fp_before_havoc[k], fp_after_havoc[k])
+            if not was_havocked:
+                o = self.heap.get(k[1])
+                where = getattr(o, "path", None) or f"object {k[1]}"
+                raise OutsideSubset(f"loop {key} of {self.fn_ident} writes {k[0]} {where}{'.' + str(k[2]) if len(k) > 2 else ''} which is not in its havoc set: "
+                                    f"declare it in loop_havoc")
+
     def seq_len(self, ref):
         o = self.heap[ref.oid]
         return o.length if isinstance(o, HObjList) else z3.Length(o.seq)
@@ -2143,6 +2255,7 @@ class Exec:
         elif kind == "list":
             self.locals[idx_name] = I(0)
         pre_loop = self.snapshot_loop()
+        fp0 = self.heap_fingerprint()
         for k, inv in enumerate(invs):
             self.prove(f"loop{key}.inv{k}.init", "inv-init", self.spec_loop(inv, pre_loop))
         # ---- havoc the loop's write set
@@ -2188,6 +2301,7 @@ class Exec:
             self.assume(z3.And(iv >= 0, iv <= self.seq_len(seqref)))
         for inv in invs:
             self.assume(self.spec_loop(inv, pre_loop))
+        fp1 = self.heap_fingerprint()
         # ---- choose: one arbitrary iteration, or exit
         if kind == "range":
             guard = self.locals[var].term < hi
@@ -2205,6 +2319,11 @@ class Exec:
                 self.exec_block(s.orelse)
             return
         # iteration
+        cnt_path = self.contract.loop_counts.get(key)
+        if cnt_path:
+            tgt = ast.parse(path_expr(cnt_path), mode="eval").body
+            cur = self.eval(_as_load(tgt))
+            self.assign(tgt, I(ops.as_int(cur) + 1))
         if kind == "list":
             o = self.heap[seqref.oid]
             if isinstance(o, HObjList):
@@ -2218,9 +2337,11 @@ class Exec:
         try:
             self.exec_block(s.body)
         except BreakSig:
+            self.check_loop_writes(key, fp0, fp1)
             return          # leaves the loop with the current state
         except ContinueSig:
             pass
+        self.check_loop_writes(key, fp0, fp1)
         # back edge: advance and re-establish
         if kind == "range":
             self.locals[var] = I(self.locals[var].term + 1)
